@@ -176,6 +176,18 @@ def thin_PG(I):
     return rank_exact(rows, n) < n
 
 
+def thin_PG_A(I):
+    """True iff rank([P; G; A]) < n"""
+    n = I['n']
+    w = wt(I['dims'])
+    rows = [[I['G'][j][r] for j in range(n)] for r in range(cdim(I['dims'])) if w[r] > 0]
+    rows += [[I['A'][j][r] for j in range(n)] for r in range(I['p'])]
+    if 'R' in I and n:
+        k = len(I['R'][0])
+        rows += [[I['R'][j][r] for j in range(n)] for r in range(k)]
+    return rank_exact(rows, n) < n
+
+
 def gen_candidates(seed, counts, qp=False):
     """counts: dict kind -> number"""
     rnd = random.Random(seed)
